@@ -231,6 +231,13 @@ TrMgrLookup ==
   /\ UNCHANGED sh
 TrMgrEnd == IsEvent("ShMgrEnd") /\ R.all_file_info >= R.distinct_files /\ UNCHANGED sh
 
+\* a chunk of a keyed shard is found through the manager although the unkeyed collection, which is asked first, holds
+\* another chunk with the same 64-bit prefix (its table entry does not verify and the search goes on)
+TrDedupMust ==
+  /\ IsEvent("ShDedupMust") /\ R.owner \in DOMAIN sh
+  /\ R.ans.found /\ Truthful(sh[R.owner], R.q, R.ans)
+  /\ UNCHANGED sh
+
 TrKeyedFile == IsEvent("ShKeyedFile") /\ R.found = R.incl_file /\ UNCHANGED sh
 
 ExpiryOK ==
@@ -246,7 +253,7 @@ TrExpiry == IsEvent("ShExpiry") /\ ExpiryOK = TRUE /\ UNCHANGED sh
 TrKeyedTimes == IsEvent("ShKeyedTimes") /\ R.creation = R.creation_set /\ R.expiry = R.creation + R.valid /\ UNCHANGED sh
 
 TraceNext == \/ TrReset \/ TrBuild \/ TrLookup \/ TrScan \/ TrSizes \/ TrSearch \/ TrDedup \/ TrSetOp \/ TrConsolidate
-             \/ TrExport \/ TrDedupPair \/ TrKeyedFile \/ TrExpiry \/ TrKeyedTimes \/ TrMgrLookup \/ TrMgrEnd \/ TrExportLookup
+             \/ TrExport \/ TrDedupPair \/ TrKeyedFile \/ TrExpiry \/ TrKeyedTimes \/ TrMgrLookup \/ TrMgrEnd \/ TrExportLookup \/ TrDedupMust
 TraceSpec == TraceInit /\ [][TraceNext]_vars
 
 TraceAccepted ==
